@@ -426,6 +426,20 @@ def setDType (h : H1) (d : DType) : R H1 :=
     pure { h with dtype := d, under := truncN d h.under, over := truncN d h.over, inner := truncN d h.inner }
   else throw "dtype change refused"
 
+/-- `h.frequencies = values` (the public property setter) with an array of element type `k`: shape and sign are
+    validated, the content type is promoted to hold the assigned values (`_as_contents`), the values are stored.
+    Squared errors, missed counts and statistics are not touched. -/
+def setFreq (h : H1) (vals : List Rat) (k : DType) : R H1 := do
+  if vals.length != h.freq.length then throw "shape"
+  if vals.any (· < 0) then throw "negative frequencies"
+  pure { h.coerce k with freq := vals }
+
+/-- `h.errors2 = values` (the public property setter) -/
+def setErr2 (h : H1) (vals : List Rat) (k : DType) : R H1 := do
+  if vals.length != h.err2.length then throw "shape"
+  if vals.any (· < 0) then throw "negative errors"
+  pure { h.coerce k with err2 := vals }
+
 /-- `copy(include_frequencies=…)` -/
 def copy (h : H1) (withFreq : Bool) : H1 :=
   if withFreq then h
